@@ -18,7 +18,7 @@ ID = "C17"
 LEVEL = "exploration"
 RULE = (
     "Hypothesis over all six built-in methods (norm, uniform, truncnorm, sobol, halton, lhs), R,P,n in 1..6, "
-    "variable masks, 1-3 samplers assigned to disjoint variable sets (variables may have no sampler), realization weights with zeros, shared on/off, seeds, 1-3 consecutive calls; "
+    "variable masks, 1-3 samplers (method names plain, 'scipy/<name>' or upper case) assigned to disjoint variable sets (variables may have no sampler) or not assigned at all, realization weights with zeros, shared on/off, seeds, 1-3 consecutive calls; "
     "'direct' cases call plugin.create(...).generate_samples(), 'e2e' cases read perturbed_variables - variables from "
     "EnsembleEvaluator (x=0, magnitude 1, boundary NONE). Oracles: shape, exact zeros in unhandled columns, shared/"
     "per-realization, range [-1,1], QMC differential (row multiset == points of an identically seeded scipy.stats.qmc "
@@ -48,7 +48,8 @@ def build_config(case: dict[str, Any]) -> EnOptConfig:
             "boundary_types": 1,
             "seed": case["seed"],
         },
-        "samplers": [{"method": s["method"], "shared": s["shared"], "options": s.get("options") or {}} for s in case["samplers"]],
+        "samplers": [{"method": {"plain": s["method"], "qualified": "scipy/" + s["method"], "upper": s["method"].upper()}[s.get("spelling", "plain")],
+                      "shared": s["shared"], "options": s.get("options") or {}} for s in case["samplers"]],
     }
     if case.get("mask") is not None:
         cfg["variables"]["mask"] = case["mask"]
@@ -127,8 +128,10 @@ def check_samples(case: dict[str, Any], spec: dict[str, Any], mask: np.ndarray, 
 def run_direct(case: dict[str, Any]) -> None:
     cfg = build_config(case)
     for idx, spec in enumerate(case["samplers"]):
+        if idx and case.get("assign") is None:
+            continue  # without an assignment only the first sampler perturbs anything
         mask = handled_mask(case, idx)
-        plugin = _MANAGER.get_plugin("sampler", spec["method"])
+        plugin = _MANAGER.get_plugin("sampler", cfg.samplers[idx].method)
         use_mask = None if (case.get("mask") is None and case.get("assign") is None) else mask
         sampler = plugin.create(cfg, idx, use_mask, default_rng(case["seed"]))
         calls = [np.asarray(sampler.generate_samples()) for _ in range(case["calls"])]
@@ -188,7 +191,8 @@ def hypothesis_shard(item: dict[str, Any]) -> Collector:
             "seed": draw(st.integers(0, 2**31 - 1)), "calls": draw(st.integers(1, 3)),
         }
         s_n = draw(st.integers(1, 3))
-        case["samplers"] = [{"method": draw(methods), "shared": draw(st.booleans())} for _ in range(s_n)]
+        case["samplers"] = [{"method": draw(methods), "shared": draw(st.booleans()), "spelling": draw(st.sampled_from(["plain", "plain", "qualified", "upper"]))}
+                            for _ in range(s_n)]
         for spec in case["samplers"]:  # explicit range options next to default ones
             if spec["method"] == "uniform" and draw(st.integers(0, 2)) == 0:
                 spec["options"] = {"loc": -4.0, "scale": 8.0}
@@ -200,7 +204,7 @@ def hypothesis_shard(item: dict[str, Any]) -> Collector:
             if not any(mask):
                 mask[draw(st.integers(0, n - 1))] = True
         case["mask"] = mask
-        if s_n > 1 or draw(st.booleans()):
+        if (s_n > 1 and draw(st.integers(0, 3)) > 0) or (s_n == 1 and draw(st.booleans())):
             assign = [draw(st.integers(-1, s_n - 1)) for _ in range(n)]
             free = [i for i in range(n) if mask is None or mask[i]]
             if all(assign[i] < 0 for i in free):
@@ -220,7 +224,8 @@ def hypothesis_shard(item: dict[str, Any]) -> Collector:
         nontrivial = False
         classes = [case["kind"], f"samplers={len(case['samplers'])}", "masked" if case["mask"] else "unmasked",
                    "zero-weight-realizations" if case["weights"] and 0.0 in case["weights"] else "positive-weights",
-                   "variables-without-sampler" if case["assign"] and -1 in case["assign"] else "all-assigned"]
+                   "variables-without-sampler" if case["assign"] and -1 in case["assign"] else "all-assigned",
+                   "several-samplers-no-assignment" if case["assign"] is None and len(case["samplers"]) > 1 else "assignment-or-single"]
         for idx, spec in enumerate(case["samplers"]):
             d = int(handled_mask(case, idx).sum())
             points = case["P"] * (1 if spec["shared"] else case["R"])
